@@ -32,6 +32,8 @@ CONSTANTS HB, LB, V4, MapPat,
           WithBad,     \* BOOLEAN: lists may contain an unparsable entry
           QueryEdges,  \* BOOLEAN: enumerate Query transitions (the state invariants
                        \*          already quantify over every source)
+          HostBits,    \* "all": every (address, length) pair is an entry; "edge": only entries
+                       \*          whose host bits are all clear or all set (quick tier)
           Canon        \* BOOLEAN: only lists whose entries are appended in the fixed
                        \*          order EKey.  Sound as a reduction because Compile
                        \*          already yields EVERY lo-sorted permutation (sort.Slice
@@ -83,6 +85,9 @@ Bounds(f, a, l) ==
 EKey(e) == IF e.bad THEN 0
            ELSE (IF e.fam = 4 THEN 1 ELSE 1 + 2^V4 * (V4 + 1)) + e.a * (Width(e.fam) + 1) + e.l
 CanAppend(lst, e) == IF ~Canon \/ Len(lst) = 0 THEN TRUE ELSE EKey(lst[Len(lst)]) <= EKey(e)
+
+HostOK(f, a, l) == IF HostBits = "all" THEN TRUE
+                   ELSE (a % 2^(Width(f) - l)) \in {0, 2^(Width(f) - l) - 1}
 
 SpanOf(e) == LET b == Bounds(e.fam, e.a, e.l) IN [lo |-> b[1], hi |-> b[2], maxHi |-> Zero]
 
@@ -145,7 +150,7 @@ Init == /\ list = <<>> /\ v4 = <<>> /\ v6 = <<>> /\ nbad = 0
 
 Add(f, a, l) ==
   /\ ~compiled /\ Len(list) < MaxLen
-  /\ f \in Fams /\ a \in AddrsOf(f) /\ l \in 0..Width(f)
+  /\ f \in Fams /\ a \in AddrsOf(f) /\ l \in 0..Width(f) /\ HostOK(f, a, l)
   /\ LET e == [bad |-> FALSE, fam |-> f, a |-> a, l |-> l] IN
      /\ CanAppend(list, e)
      /\ list' = Append(list, e)
